@@ -781,6 +781,10 @@ def rule_whole_body_listed(prog, fixture=False):
                           "the line decoder is given %d bytes more than were read" % off
             if problem is None and off == -1 and not verified:
                 problem = "the last byte of the record is dropped without having been tested to be the 0x0D terminator"
+            if problem is None and off == 0 and _terminator_verified(g, dc, vd, buf, fn):
+                problem = "the record's last byte is known to be the 0x0D terminator here, and it is handed to the line decoder " \
+                          "as part of the line: a token or line-number reference cut off by the end of the line finds its " \
+                          "missing byte in the terminator instead of being diagnosed"
             r.add(key, fn.loc(dc), problem is None,
                   "length = bytes read%s" % (" - 1 (terminator verified)" if off else "") if problem is None else problem)
     return r
